@@ -1,6 +1,7 @@
 package main
 
 import (
+	"sort"
 	"fmt"
 	"go/types"
 	"strings"
@@ -271,6 +272,82 @@ func propC20(w *World, r *Report) {
 		}
 	}
 	r.Check(nSites >= 5, "G4", "call sites of the limiter found", "-", fmt.Sprint(nSites))
+	// the owner's per-frame code logs only through its limiter: a direct log.Print in a method reached from the frame
+	// entry points would print on every frame whatever the limiter remembers
+	nOwners := 0
+	for _, p := range w.Repo {
+		sp := w.SSAPkgs[p.PkgPath]
+		for _, mem := range sp.Members {
+			tp, ok := mem.(*ssa.Type)
+			if !ok {
+				continue
+			}
+			named, ok := tp.Type().(*types.Named)
+			if !ok {
+				continue
+			}
+			ost, ok := named.Underlying().(*types.Struct)
+			if !ok {
+				continue
+			}
+			owns := false
+			for i := 0; i < ost.NumFields(); i++ {
+				if isPtrTo(ost.Field(i).Type(), T) {
+					owns = true
+				}
+			}
+			if !owns {
+				continue
+			}
+			nOwners++
+			// methods reachable from the exported frame entry points (names starting with Process) on the same receiver
+			reach := map[*ssa.Function]bool{}
+			var walk func(fn *ssa.Function)
+			walk = func(fn *ssa.Function) {
+				if fn == nil || reach[fn] || len(fn.Blocks) == 0 {
+					return
+				}
+				reach[fn] = true
+				for _, b := range fn.Blocks {
+					for _, in := range b.Instrs {
+						if c, ok := in.(ssa.CallInstruction); ok {
+							if cl := c.Common().StaticCallee(); cl != nil && cl.Signature.Recv() != nil && isPtrTo(cl.Signature.Recv().Type(), named) {
+								walk(cl)
+							}
+						}
+					}
+				}
+			}
+			ms := w.Prog.MethodSets.MethodSet(types.NewPointer(named))
+			for i := 0; i < ms.Len(); i++ {
+				if strings.HasPrefix(ms.At(i).Obj().Name(), "Process") {
+					walk(w.Prog.MethodValue(ms.At(i)))
+				}
+			}
+			var fns []*ssa.Function
+			for fn := range reach {
+				fns = append(fns, fn)
+			}
+			sort.Slice(fns, func(i, j int) bool { return fns[i].String() < fns[j].String() })
+			nDirect := 0
+			for _, fn := range fns {
+				for _, b := range fn.Blocks {
+					for _, in := range b.Instrs {
+						if c, ok := in.(ssa.CallInstruction); ok {
+							if cl := c.Common().StaticCallee(); cl != nil && cl.Pkg != nil && cl.Pkg.Pkg.Path() == "log" && cl.Signature.Recv() == nil {
+								nDirect++
+								r.Fail("G1", "per-frame code of "+named.Obj().Name()+" logs only through its limiter", w.InstrPos(in), fn.Name()+" calls "+cl.String()+" directly", "")
+							}
+						}
+					}
+				}
+			}
+			if nDirect == 0 {
+				r.Check(len(fns) >= 3, "G1", "per-frame code of "+named.Obj().Name()+" logs only through its limiter", "-", fmt.Sprintf("%d methods reachable from the frame entry points", len(fns)))
+			}
+		}
+	}
+	r.Check(nOwners >= 1, "G4", "a type owns a limiter", "-", fmt.Sprint(nOwners))
 	r.Check(n >= 1, "G4", "the recorder builds a limiter", "-", fmt.Sprint(n))
 	r.Check(nInstall >= 1, "G4", "the limiter is installed in an owner", "-", fmt.Sprint(nInstall))
 }
